@@ -363,6 +363,9 @@ func GenSpec(t *rapid.T, o Opts) *Spec {
 		}
 	}
 	s.Style = ri(t, 0, 1, "style")
+	if ri(t, 0, 4, "ws-style") == 0 {
+		s.Style |= ri(t, 1, 3, "ws-bits") << 1
+	}
 	return s
 }
 
